@@ -42,6 +42,8 @@ type Rev struct {
 	// filled by WriteRevision: entries per object-stream container, xref stream entries
 	OutObjStmN   []int
 	OutXRefCount int
+	// OutObjStmData: the decoded data of every object-stream container written, by object number
+	OutObjStmData map[int][]byte
 }
 
 // Mutation is one semantic fault applied while writing (for C02): it damages
@@ -393,6 +395,10 @@ func (f *File) WriteRevision(rv *Rev) {
 			head.WriteString(e.EOL)
 		}
 		raw := append(head.Bytes(), sub.Buf.Bytes()...)
+		if rv.OutObjStmData == nil {
+			rv.OutObjStmData = map[int][]byte{}
+		}
+		rv.OutObjStmData[c.num] = append([]byte{}, raw...)
 		nVal, firstVal := int64(len(c.objs)), int64(head.Len())
 		if mut != nil {
 			switch mut.Kind {
